@@ -212,7 +212,7 @@ func New(opts Options) (*Vaxis, error) {
 	vx.queue = make(chan Event, opts.EventQueueSize)
 	vx.screenNext = newScreen()
 	vx.screenLast = newScreen()
-	vx.chClipboard = make(chan string)
+	vx.chClipboard = make(chan string, 1)
 	vx.chSigWinSz = make(chan os.Signal, 1)
 	vx.chSigKill = make(chan os.Signal, 1)
 	vx.chCursorPos = make(chan [2]int, 1)
@@ -1594,6 +1594,12 @@ func (vx *Vaxis) ClipboardPush(s string) {
 // a context to set a deadline for this function to return. An error will be
 // returned if the context is cancelled.
 func (vx *Vaxis) ClipboardPop(ctx context.Context) (string, error) {
+	// Discard a report nobody asked for (or one which arrived after a
+	// previous request was given up)
+	select {
+	case <-vx.chClipboard:
+	default:
+	}
 	_, _ = vx.tw.WriteStringLocked(osc52pop)
 	select {
 	case str := <-vx.chClipboard:
